@@ -8,9 +8,29 @@
 // TSan flags a conflicting access pair whatever the actual timing (happens-before detector); every report is
 // counted through __tsan_on_report and also makes the process exit with 66.
 //
+//
+// FIRST-USE rounds (before the rounds above).  A static that is built lazily is written exactly once, by whoever comes
+// first; once somebody - in particular the main thread computing a sequential reference - has executed an operation,
+// neither a race detector nor a result comparison can see anything.  So for every configuration class of the degree-
+// dependent code paths (unrolled bit reversal <= 1024 / static 16-bit table 1025..32768 / degree > 32768; all limb
+// widths that exist in the class) a FRESH PROCESS (re-exec of this binary, VERIF_FIRST) is started in which the main
+// thread executes NO library operation: worker threads are released together by a barrier and perform the first
+// execution in that process of every operation (a prologue runs each operation once; the two threads of a pair use the
+// same type and the same operation order, so they stay in lockstep and race on every first use; different pairs start
+// at different operations).  The sequential reference digests come from ANOTHER fresh process (VERIF_FIRSTREF).
+//
+// The first-use rounds are also run by an UNSANITISED build (VERIF_FIRSTONLY=1, VERIF_FIRST_REPS=n; real speed, workers
+// in lockstep through the prologue): wrong digests / crashes of a half-built table are observed there, and faults in
+// code ThreadSanitizer does not instrument are not missed.
+//
 // Output (one line per round):   conc17 <threads> <round-seed> <opcount> => <digests-equal 0|1> <tsan-reports>
+//                                conc17f <class> <max-degree> <threads> <round-seed> <opcount> => <digests-equal> <tsan-reports | 1000+signal>
 // Replay of one round:           VERIF_ONLY="<threads> <round-seed>" ./conc17   (same VERIF_SEED / VERIF_TIER)
+//                                VERIF_FIRST="<class> <threads> <round-seed>" ./conc17
 #include <atomic>
+#include <memory>
+#include <sys/wait.h>
+#include <unistd.h>
 #include <sstream>
 #include <thread>
 #include <nfl.hpp>
@@ -18,6 +38,28 @@
 
 static std::atomic<int> g_reports{0};
 extern "C" void __tsan_on_report(void*) { g_reports.fetch_add(1, std::memory_order_relaxed); }
+
+// Lockstep for the first-use prologue of the NATIVE (unsanitised) build: all workers of a round meet before every
+// prologue step, so the first executions of an operation start within ~100 ns of each other and a lazy initialisation
+// of ~1 ms is really overlapped (wrong results / crashes become visible).  Not used under ThreadSanitizer: there a
+// conflicting pair is reported whatever the timing, and a barrier would add happens-before edges between the steps.
+struct SpinBarrier {
+  std::atomic<unsigned> count{0}, gen{0};
+  unsigned n = 1;
+  void wait() {
+    unsigned g = gen.load(std::memory_order_acquire);
+    if (count.fetch_add(1, std::memory_order_acq_rel) + 1 == n) {
+      count.store(0, std::memory_order_relaxed);
+      gen.store(g + 1, std::memory_order_release);
+    } else {
+      unsigned spins = 0;
+      while (gen.load(std::memory_order_acquire) == g)
+        if (++spins > 20000) { std::this_thread::yield(); spins = 0; }
+    }
+  }
+};
+static thread_local SpinBarrier* tl_sync = nullptr;
+static const unsigned kPrologueSteps = 14;   // >= the number of operations of every work function
 
 struct Digest {
   uint64_t h = 0xcbf29ce484222325ULL;
@@ -31,7 +73,7 @@ template <class P> static void fold(Digest& d, P const& p) {
 
 // A seeded mixed op sequence on private poly objects.
 template <class T, size_t D, size_t M>
-static uint64_t work_poly(uint64_t seed, unsigned nops) {
+static uint64_t work_poly(uint64_t seed, unsigned nops, int start) {
   using P = nfl::poly<T, D, M>;
   vh::Rng rng(seed);
   Digest dg;
@@ -43,10 +85,12 @@ static uint64_t work_poly(uint64_t seed, unsigned nops) {
     p.set(vals.begin(), vals.end());
   };
   fill(*a); fill(*b);
-  std::array<mpz_t, D> arr;
+  std::unique_ptr<std::array<mpz_t, D>> arrp(new std::array<mpz_t, D>);
+  std::array<mpz_t, D>& arr = *arrp;
   for (size_t i = 0; i < D; i++) mpz_init(arr[i]);
-  for (unsigned k = 0; k < nops; k++) {
-    switch (rng.below(14)) {
+  const unsigned kOps = 14;
+  auto step = [&](unsigned which) {
+    switch (which) {
       case 0: fill(*a); break;
       case 1: { P t{(T)rng.next(), (T)rng.next(), (T)rng.next()}; *b = t; break; }
       case 2: a->ntt_pow_phi(); break;
@@ -84,7 +128,13 @@ static uint64_t work_poly(uint64_t seed, unsigned nops) {
       case 13: { *c = *a * *b + *a - *b; dg.add((bool)*c); break; }
     }
     fold(dg, *a); fold(dg, *b); fold(dg, *c);
-  }
+  };
+  if (start >= 0)   // first-use prologue: every operation once, beginning with operation `start`
+    for (unsigned j = 0; j < kPrologueSteps; j++) {
+      if (tl_sync) tl_sync->wait();
+      if (j < kOps) step(((unsigned)start + j) % kOps);
+    }
+  for (unsigned k = 0; k < nops; k++) step(rng.below(kOps));
   for (size_t i = 0; i < D; i++) mpz_clear(arr[i]);
   return dg.h;
 }
@@ -93,7 +143,7 @@ template <class X> static X const& cref(X& x) { return x; }  // poly_p's generic
 
 // The same on copy-on-write handles (private handles; payloads are shared only between handles of this thread).
 template <class T, size_t D, size_t M>
-static uint64_t work_polyp(uint64_t seed, unsigned nops) {
+static uint64_t work_polyp(uint64_t seed, unsigned nops, int start) {
   using PP = nfl::poly_p<T, D, M>;
   vh::Rng rng(seed);
   Digest dg;
@@ -103,10 +153,12 @@ static uint64_t work_polyp(uint64_t seed, unsigned nops) {
     return PP(vals.begin(), vals.end());
   };
   PP a = mk(), b = mk(), c;
-  std::array<mpz_t, D> arr;
+  std::unique_ptr<std::array<mpz_t, D>> arrp(new std::array<mpz_t, D>);
+  std::array<mpz_t, D>& arr = *arrp;
   for (size_t i = 0; i < D; i++) mpz_init(arr[i]);
-  for (unsigned k = 0; k < nops; k++) {
-    switch (rng.below(11)) {
+  const unsigned kOps = 11;
+  auto step = [&](unsigned which) {
+    switch (which) {
       case 0: a = mk(); break;
       case 1: { PP t(a); c = cref(t); break; }                      // handle copies
       case 2: { PP t(a); t(rng.below(M), rng.below(D)) = 1; dg.add(t == a ? 1 : 2); c = cref(t); break; }  // copy-on-write
@@ -130,25 +182,45 @@ static uint64_t work_polyp(uint64_t seed, unsigned nops) {
       case 10: { PP t(b); b = cref(a); a = cref(t); break; }                // swap handles
     }
     fold(dg, cref(a).poly_obj()); fold(dg, cref(b).poly_obj()); fold(dg, cref(c).poly_obj());  // const access: no detach
-  }
+  };
+  if (start >= 0)
+    for (unsigned j = 0; j < kPrologueSteps; j++) {
+      if (tl_sync) tl_sync->wait();
+      if (j < kOps) step(((unsigned)start + j) % kOps);
+    }
+  for (unsigned k = 0; k < nops; k++) step(rng.below(kOps));
   for (size_t i = 0; i < D; i++) mpz_clear(arr[i]);
   return dg.h;
 }
 
-typedef uint64_t (*WorkFn)(uint64_t, unsigned);
-struct Cfg { const char* name; WorkFn fn; unsigned ops_quick, ops_thorough; };
+typedef uint64_t (*WorkFn)(uint64_t, unsigned, int);
+struct Cfg { const char* name; WorkFn fn; unsigned ops_quick, ops_thorough; size_t degree; };
 static const Cfg kCfgs[] = {
-    {"poly<u32,64,2>", work_poly<uint32_t, 64, 2>, 800, 4000},
-    {"poly<u64,256,3>", work_poly<uint64_t, 256, 3>, 250, 1200},
-    {"poly<u16,64,1>", work_poly<uint16_t, 64, 1>, 800, 4000},
-    {"poly<u64,2048,1>", work_poly<uint64_t, 2048, 1>, 60, 300},
-    {"poly_p<u32,64,2>", work_polyp<uint32_t, 64, 2>, 800, 4000},
-    {"poly_p<u64,256,3>", work_polyp<uint64_t, 256, 3>, 250, 1200},
-    {"poly_p<u32,2048,1>", work_polyp<uint32_t, 2048, 1>, 60, 300},
+    {"poly<u32,64,2>", work_poly<uint32_t, 64, 2>, 800, 4000, 64},
+    {"poly<u64,256,3>", work_poly<uint64_t, 256, 3>, 250, 1200, 256},
+    {"poly<u16,64,1>", work_poly<uint16_t, 64, 1>, 800, 4000, 64},
+    {"poly<u64,2048,1>", work_poly<uint64_t, 2048, 1>, 60, 300, 2048},
+    {"poly_p<u32,64,2>", work_polyp<uint32_t, 64, 2>, 800, 4000, 64},
+    {"poly_p<u64,256,3>", work_polyp<uint64_t, 256, 3>, 250, 1200, 256},
+    {"poly_p<u32,2048,1>", work_polyp<uint32_t, 2048, 1>, 60, 300, 2048},
+    // first-use rounds only (not part of the rotation of the mixed rounds: kNCfg)
+    {"poly<u32,32768,1>", work_poly<uint32_t, 32768, 1>, 4, 8, 32768},
+    {"poly<u64,65536,1>", work_poly<uint64_t, 65536, 1>, 3, 6, 65536},
+    {"poly_p<u64,65536,2>", work_polyp<uint64_t, 65536, 2>, 3, 6, 65536},
 };
-static const size_t kNCfg = sizeof(kCfgs) / sizeof(kCfgs[0]);
+static const size_t kNCfg = 7;
 
-struct Task { size_t cfg; uint64_t seed; unsigned nops; uint64_t seq = 0, conc = 0; };
+// configuration classes of the degree-dependent code paths; the types of one class that share a degree share the
+// bit-reversal table permut<degree>::P, types always have their own transform / CRT tables (poly<>::base, ::gmp)
+struct FirstClass { const char* name; std::vector<size_t> cfgs; };
+static const FirstClass kFirst[] = {
+    {"unrolled(<=1024)", {0, 1, 2, 4, 5}},
+    {"static-table(1025..32768)", {3, 6, 7}},
+    {"over-32768", {8, 9}},
+};
+static const size_t kNFirst = sizeof(kFirst) / sizeof(kFirst[0]);
+
+struct Task { size_t cfg; uint64_t seed; unsigned nops; uint64_t seq = 0, conc = 0; int start = -1; };
 
 static bool run_round(unsigned T, uint64_t round_seed) {
   vh::Rng rng(round_seed);
@@ -163,7 +235,7 @@ static bool run_round(unsigned T, uint64_t round_seed) {
   }
   if (T >= 2 && rng.below(2)) tasks[1].cfg = tasks[0].cfg, tasks[1].nops = tasks[0].nops;  // two threads on the same statics
   int rep0 = g_reports.load();
-  for (auto& t : tasks) t.seq = kCfgs[t.cfg].fn(t.seed, t.nops);   // sequential reference
+  for (auto& t : tasks) t.seq = kCfgs[t.cfg].fn(t.seed, t.nops, -1);   // sequential reference
   std::atomic<unsigned> ready{0};
   std::atomic<bool> go{false};
   std::vector<std::thread> th;
@@ -171,7 +243,7 @@ static bool run_round(unsigned T, uint64_t round_seed) {
     th.emplace_back([&, i] {
       ready.fetch_add(1);
       while (!go.load(std::memory_order_acquire)) std::this_thread::yield();
-      tasks[i].conc = kCfgs[tasks[i].cfg].fn(tasks[i].seed, tasks[i].nops);
+      tasks[i].conc = kCfgs[tasks[i].cfg].fn(tasks[i].seed, tasks[i].nops, -1);
     });
   while (ready.load() < T) std::this_thread::yield();
   go.store(true, std::memory_order_release);
@@ -190,19 +262,160 @@ static bool run_round(unsigned T, uint64_t round_seed) {
   return eq && reps == 0;
 }
 
+// ---------------------------------------------------------------------------------------------------------------
+// first-use rounds
+static std::vector<Task> first_tasks(size_t cls, unsigned T, uint64_t round_seed) {
+  vh::Rng rng(round_seed ^ (0x9e37ULL * (cls + 1)));
+  const FirstClass& fc = kFirst[cls];
+  std::vector<Task> tasks(T);
+  size_t rot = rng.below(fc.cfgs.size());
+  for (unsigned i = 0; i < T; i++) {
+    unsigned pair = i / 2;                                   // the two threads of a pair: same type, same operation order
+    tasks[i].cfg = fc.cfgs[(rot + pair) % fc.cfgs.size()];
+    tasks[i].seed = rng.next();
+    tasks[i].nops = vh::thorough() ? 12 : 4;
+    if (kCfgs[tasks[i].cfg].degree > 4096) tasks[i].nops = vh::thorough() ? 4 : 1;
+  }
+  for (unsigned i = 0; i < T; i += 2) {
+    int st = (int)rng.below(14);
+    tasks[i].start = st;
+    if (i + 1 < T) tasks[i + 1].start = st;
+  }
+  return tasks;
+}
+
+static int popen_self(const char* var, const std::string& val, std::string* out) {
+  // re-exec this binary with one more environment variable; the main thread has not created any thread yet
+  fflush(stdout);
+  int fds[2] = {-1, -1};
+  if (out && pipe(fds) != 0) return -1;
+  pid_t pid = fork();
+  if (pid < 0) return -1;
+  if (pid == 0) {
+    if (out) { dup2(fds[1], 1); close(fds[0]); close(fds[1]); }
+    setenv(var, val.c_str(), 1);
+    execl("/proc/self/exe", "conc17", (char*)nullptr);
+    _exit(127);
+  }
+  if (out) {
+    close(fds[1]);
+    char buf[4096]; ssize_t n;
+    while ((n = read(fds[0], buf, sizeof buf)) > 0) out->append(buf, (size_t)n);
+    close(fds[0]);
+  }
+  int st = 0;
+  while (waitpid(pid, &st, 0) < 0) {}
+  return st;
+}
+
+// VERIF_FIRSTREF="<class> <T> <seed>": the same task list, one task after the other, in this (fresh) process
+static int first_ref(size_t cls, unsigned T, uint64_t round_seed) {
+  std::vector<Task> tasks = first_tasks(cls, T, round_seed);
+  for (auto& t : tasks) printf("%llu\n", (unsigned long long)kCfgs[t.cfg].fn(t.seed, t.nops, t.start));
+  return 0;
+}
+
+// VERIF_FIRST="<class> <T> <seed>": this process has executed no library operation; the workers do the first ones
+static int first_round(size_t cls, unsigned T, uint64_t round_seed) {
+  std::vector<Task> tasks = first_tasks(cls, T, round_seed);
+  char spec[96];
+  snprintf(spec, sizeof spec, "%zu %u %llu", cls, T, (unsigned long long)round_seed);
+  std::string ref;
+  int rst = popen_self("VERIF_FIRSTREF", spec, &ref);       // another fresh process; before any thread exists here
+  bool ref_ok = WIFEXITED(rst) && WEXITSTATUS(rst) == 0;
+  {
+    const char* p = ref.c_str();
+    for (auto& t : tasks) {
+      char* e = nullptr;
+      t.seq = strtoull(p, &e, 10);
+      if (e == p) ref_ok = false;
+      p = e;
+    }
+  }
+  unsigned opcount = 0;
+  size_t maxdeg = 0;
+  for (auto& t : tasks) { opcount += t.nops + 14; maxdeg = std::max(maxdeg, kCfgs[t.cfg].degree); }
+  std::atomic<unsigned> ready{0};
+  std::atomic<bool> go{false};
+  SpinBarrier lockstep;
+  lockstep.n = T;
+  std::vector<std::thread> th;
+  for (unsigned i = 0; i < T; i++)
+    th.emplace_back([&, i] {
+#if !defined(__SANITIZE_THREAD__)
+      tl_sync = &lockstep;
+#endif
+      ready.fetch_add(1);
+      while (!go.load(std::memory_order_acquire)) {}        // spin: all workers leave the barrier within nanoseconds
+      tasks[i].conc = kCfgs[tasks[i].cfg].fn(tasks[i].seed, tasks[i].nops, tasks[i].start);
+    });
+  while (ready.load() < T) std::this_thread::yield();
+  go.store(true, std::memory_order_release);
+  for (auto& t : th) t.join();
+  bool eq = ref_ok;
+  if (!ref_ok) fprintf(stderr, "conc17: first-use round %s: the sequential reference process failed (status %d)\n", spec, rst);
+  for (unsigned i = 0; i < T && ref_ok; i++)
+    if (tasks[i].seq != tasks[i].conc) {
+      eq = false;
+      fprintf(stderr, "conc17: first-use round, class %s, thread %u (%s, seed %llu, first operation %d): digest in a sequential process %016llx, as first user among %u threads %016llx\n",
+              kFirst[cls].name, i, kCfgs[tasks[i].cfg].name, (unsigned long long)tasks[i].seed, tasks[i].start,
+              (unsigned long long)tasks[i].seq, T, (unsigned long long)tasks[i].conc);
+    }
+  int reps = g_reports.load();
+  printf("conc17f %zu %zu %u %llu %u => %d %d\n", cls, maxdeg, T, (unsigned long long)round_seed, opcount, eq ? 1 : 0, reps);
+  fflush(stdout);
+  return eq && reps == 0 ? 0 : 1;
+}
+
+// parent side: run one first-use round in a fresh process; a crash of that process is a verdict too
+static bool spawn_first(size_t cls, unsigned T, uint64_t round_seed) {
+  char spec[96];
+  snprintf(spec, sizeof spec, "%zu %u %llu", cls, T, (unsigned long long)round_seed);
+  int st = popen_self("VERIF_FIRST", spec, nullptr);
+  if (WIFEXITED(st) && WEXITSTATUS(st) != 127) return WEXITSTATUS(st) == 0;   // the child printed its own line (1 / 66: verdicts)
+  int sig = WIFSIGNALED(st) ? WTERMSIG(st) : 0;
+  size_t maxdeg = 0;
+  for (size_t c : kFirst[cls].cfgs) maxdeg = std::max(maxdeg, kCfgs[c].degree);
+  fprintf(stderr, "conc17: first-use round %s (class %s): the process was terminated by signal %d\n", spec, kFirst[cls].name, sig);
+  printf("conc17f %zu %zu %u %llu 0 => 0 %d\n", cls, maxdeg, T, (unsigned long long)round_seed, 1000 + sig);
+  fflush(stdout);
+  return false;
+}
+
 int main() {
   uint64_t seed = vh::env_u64("VERIF_SEED", 1);
+  for (const char* var : {"VERIF_FIRSTREF", "VERIF_FIRST"}) {
+    const char* v = getenv(var);
+    if (v && *v) {
+      size_t cls; unsigned T; unsigned long long rs;
+      if (sscanf(v, "%zu %u %llu", &cls, &T, &rs) != 3 || cls >= kNFirst || T < 1 || T > 64) return 2;
+      std::string keep(v);
+      unsetenv(var);
+      return var[11] == 'R' ? first_ref(cls, T, rs) : first_round(cls, T, rs);
+    }
+  }
   const char* only = getenv("VERIF_ONLY");
   if (only && *only) {
     unsigned T; unsigned long long rs;
     if (sscanf(only, "%u %llu", &T, &rs) == 2) return run_round(T, rs) ? 0 : 1;
   }
   vh::Rng master(seed * 1717 + 17);
+  bool ok = true;
+  // first-use rounds: fresh processes, before this process has executed anything
+  {
+    vh::Rng fm(seed * 7177 + 71);
+    unsigned reps = (unsigned)vh::env_u64("VERIF_FIRST_REPS", vh::thorough() ? 4 : 1);
+    for (unsigned r = 0; r < reps; r++)
+      for (size_t cls = 0; cls < kNFirst; cls++) {
+        unsigned pairs = (unsigned)kFirst[cls].cfgs.size() + (r % 2);       // every type of the class has a pair
+        ok &= spawn_first(cls, 2 * pairs + (r >= 2 ? 1 : 0), fm.next() >> 16);
+      }
+  }
+  if (vh::env_u64("VERIF_FIRSTONLY", 0)) return ok ? 0 : 1;     // (the unsanitised build runs the first-use rounds only)
   std::vector<unsigned> Ts;
   if (vh::thorough()) for (unsigned t = 2; t <= 16; t++) Ts.push_back(t);
   else Ts = {2, 3, 4, 6, 8, 12, 16};
   unsigned rounds = vh::thorough() ? 6 : 2;
-  bool ok = true;
   for (unsigned T : Ts)
     for (unsigned r = 0; r < rounds; r++) ok &= run_round(T, master.next() >> 16);
   return ok ? 0 : 1;
